@@ -209,6 +209,8 @@ class C12Elitism(Monitor):
                     self.cov("generations_of_a_sobol_deme_whose_size_is_not_a_power_of_two")
                 elif cname == "LHSDeme":
                     self.cov("generations_of_an_lhs_deme")
+                elif eng == "mwea" and want and lv.get("k_elites", 1) >= 2 and want % lv["k_elites"]:
+                    self.cov("generations_of_an_mwea_deme_whose_size_is_not_a_multiple_of_its_committee_size")
                 if want is not None and len(hist[g]) != want:
                     self.v(f"generation size != configured population size: {cname}", deme=d.id, engine=eng, generation=g, size=len(hist[g]), configured=want)
                 if g == 0 or not elitist:
